@@ -43,7 +43,9 @@ func (f *fileStorage) Set(key string, value []byte) error {
 
 	defer file.Close()
 
+	verifCrashPoint("set:opened")
 	_, err = file.Write(value)
+	verifCrashPoint("set:written")
 	return err
 }
 
